@@ -447,6 +447,12 @@ def slice_C01(ctx):
                  "^(?:|[ab]+)a$", "^(?:a+|)b", "(?:|a{2,})b"]:
         for inp in gen.all_strings("ab", 4) + ["xy", "xaay", "aabc", "bc", "c"]:
             tuples.append(("xpath", "", pat_, inp, "", "empty-first"))
+    # alternatives of equal length that set different groups, then a back-reference to a later one: the
+    # alternation has to be re-entered when the reference fails
+    for pat_ in ["^(?:(a)|(.))\\2$", "(?:(a)|(b)|(.))\\3", "^(?:(ab)|(a.))\\2", "(?:(a)|(a))\\2b", "^(?:(a)|(.))(?:\\2|b)$", "(?:(.)|(a))\\2",
+                 "^(?:(aa)|(a.)|(..))\\3$", "x(?:(a)|([ab]))\\2"]:
+        for inp in gen.all_strings("ab", 4) + ["xaa", "xbb", "abab", "aaaa", "baba"]:
+            tuples.append(("xpath", "", pat_, inp, "", "equal-length-alternatives"))
     # sizes just past 64 / 128 / 255 of something: input length and offsets, repeat counts, number of
     # alternatives, number of class members, number of groups (own generator state)
     for d, fl, pat, inp, _ in sizes_stream(ctx):
@@ -1990,7 +1996,11 @@ def slice_C14(ctx):
     keep = []
     for p, inp, exp in [("[ ]", " ", "1"), ("[ ]", "a", "0"), ("[a b]", " ", "1"), ("a[ ]b", "a b", "1"), ("a[ ]b", "ab", "0"),
                         ("[^ ]", " ", "0"), ("[a-[ ]]", "a", "1"), ("\\[ a", "[a", "1"),
-                        ("a\\ b", "ab", None), ("[\\] ]", " ", "1"), ("[\\]] a", "]a", "1")]:
+                        ("a\\ b", "ab", None), ("[\\] ]", " ", "1"), ("[\\]] a", "]a", "1"),
+                        # line feed, carriage return and tab inside a class are members like the blank
+                        ("[\n]", "\n", "1"), ("[\n]", "a", "0"), ("[a\nb]", "\n", "1"), ("a[\r\n]b", "a\nb", "1"), ("a[\r\n]b", "a\rb", "1"),
+                        ("[^\r]", "\r", "0"), ("[\t\n]+x", "\t\nx", "1"), ("[;\n] +", ";", "1"), ("[;\n] +", "\n", "1"), ("[\t]", "\t", "1"),
+                        ("[a-[\n]]", "\n", "0"), ("[\n-\r]", "\x0b", "1")]:
         c = Case(cid, "xpath", "x", p, inp, "", "m", tag="class-ws")
         cases.append(c)
         keep.append((str(cid), exp))
@@ -2273,6 +2283,16 @@ def slice_C17(ctx):
         cases += [a, b]
         pairs.append((str(cid), str(cid + 1)))
         cid += 2
+    # text that only looks like an XPath extension: an escaped or bracketed '(' before '?:', an escaped
+    # backslash before a digit, '??' / '*?' whose first character is escaped or in a class
+    for pat in ["\\(?:\\d+", "[(?:]+", "a\\(?:b", "[(]?:", "\\(?:", "x\\(?:y|z", "\\\\1a", "[\\\\]1", "a\\??", "[?]?a", "a\\*?b", "[*]?b", "(a)\\\\1"]:
+        for inp in ("a(:1b:22", "(:", "a(:b", "(?:", "\\1a", "a?", "a*b", "ab", "x(:y", "a", ""):
+            for fl in ("", "i"):
+                a = Case(cid, "xsd", fl, pat, inp, "[$1]", "mrta", tag="common")
+                b = Case(cid + 1, "xpath", fl, pat, inp, "[$1]", "mrta", tag="common")
+                cases += [a, b]
+                pairs.append((str(cid), str(cid + 1)))
+                cid += 2
     ext_cases = mk_cases(extra, "mrta", start=cid)
     code, model, dis = run_slice(cases + ext_cases)
     byid = {c.cid: c for c in cases + ext_cases}
@@ -2280,6 +2300,10 @@ def slice_C17(ctx):
     nontrivial = set()
     for a, b in pairs:
         ra, rb = code.get(a, {}), code.get(b, {})
+        if ra.get("C") != rb.get("C") and rb.get("C") == "ok":
+            violations.append(viol(byid[a], "accepted (it uses no XPath extension: " + str(rb.get("C")) + " under XPath)", ra.get("C"),
+                                   "a pattern of the common subset is rejected by Regex::xsd", None,
+                                   same_as_model(code, model, a) and same_as_model(code, model, b)))
         if ra.get("C") == "ok" and rb.get("C") == "ok" and "^" not in byid[a].pattern and "$" not in byid[a].pattern:
             nontrivial.add(byid[a].key())
             if ra != rb:
